@@ -57,8 +57,21 @@ def make_world():
         def z(self):
             ...
 
-    objs = [C0, C1, A2, C3, C4, Pr5, C6, G7, A8, list, dict, int, str, Any]
-    names = ["C0", "C1", "A2", "C3", "C4", "Pr5", "C6", "G7", "A8", "list", "dict", "int", "str", "Any"]
+    class E14(abc.ABC):    # lists ABC in its bases but has no abstract method: a CONCRETE class (inspect.isabstract is False)
+        pass
+
+    class E15(E14):
+        pass
+
+    class M16(metaclass=abc.ABCMeta):   # concrete, created by ABCMeta without naming ABC
+        def m(self):
+            return 0
+
+    class E17(M16):
+        pass
+
+    objs = [C0, C1, A2, C3, C4, Pr5, C6, G7, A8, list, dict, int, str, Any, E14, E15, M16, E17]
+    names = ["C0", "C1", "A2", "C3", "C4", "Pr5", "C6", "G7", "A8", "list", "dict", "int", "str", "Any", "E14", "E15", "M16", "E17"]
     for o, n in zip(objs, names):
         if isinstance(o, type) and o.__module__ != "builtins":
             o.__qualname__ = o.__name__ = n
@@ -81,7 +94,7 @@ def make_world():
 
 
 ANY = 13
-CONCRETE_PLAIN = [0, 1, 3, 4, 6, 11, 12]
+CONCRETE_PLAIN = [0, 1, 3, 4, 6, 11, 12, 14, 15, 16, 17]
 GENERICS = [7, 9, 10]
 FIELD_IDS = ["a", "ab", "b_1", "name", "x", "class_", "_p"]
 REGEXES = ["a.*", ".*_", "a|b_1", "[a-z]+", "x?", "na me", "a.", "(name|x)"]
@@ -392,25 +405,47 @@ def py_operand(world, o, rnd=None):
     return py_pexpr(world, o[1], rnd) if o[0] == "OPat" else py_chk(world, o[1])
 
 
+def _used(pat, rnd):
+    """a pattern kept in a variable is often used as a predicate (or as an operand) before it is extended: doing so
+    must not change what the extended pattern matches"""
+    if rnd is None or rnd.random() < 0.5:
+        return pat
+    from adaptix import P
+    from adaptix._internal.provider.loc_stack_filtering import create_loc_stack_checker
+    if pat is P:
+        return pat
+    try:
+        c = rnd.random()
+        if c < 0.5:
+            create_loc_stack_checker(pat)
+        elif c < 0.75:
+            _ = pat | pat
+        else:
+            _ = ~pat
+    except (TypeError, ValueError, AttributeError):
+        pass
+    return pat
+
+
 def py_pexpr(world, e, rnd=None):
     from adaptix import P
     k = e[0]
     if k == "EP":
         return P
     if k == "EItem":
-        return py_pexpr(world, e[1], rnd)[py_pred(world, e[2], rnd)]
+        return _used(py_pexpr(world, e[1], rnd), rnd)[py_pred(world, e[2], rnd)]
     if k == "EAttr":
-        return getattr(py_pexpr(world, e[1], rnd), e[2])
+        return getattr(_used(py_pexpr(world, e[1], rnd), rnd), e[2])
     if k == "ETuple":
-        return py_pexpr(world, e[1], rnd)[tuple(py_pred(world, p, rnd) for p in e[2])]
+        return _used(py_pexpr(world, e[1], rnd), rnd)[tuple(py_pred(world, p, rnd) for p in e[2])]
     if k == "EBin":
         a, b = py_operand(world, e[2], rnd), py_operand(world, e[3], rnd)
         return {"BOr": lambda: a | b, "BAnd": lambda: a & b, "BXor": lambda: a ^ b}[e[1]]()
     if k == "EInv":
         return ~py_pexpr(world, e[1], rnd)
     if k == "EAdd":
-        return py_pexpr(world, e[1], rnd) + py_pexpr(world, e[2], rnd)
-    return py_pexpr(world, e[1], rnd).generic_arg(e[2], py_pred(world, e[3], rnd))
+        return _used(py_pexpr(world, e[1], rnd), rnd) + _used(py_pexpr(world, e[2], rnd), rnd)
+    return _used(py_pexpr(world, e[1], rnd), rnd).generic_arg(e[2], py_pred(world, e[3], rnd))
 
 
 def impl_matches(world, pred, stack, rnd=None):
@@ -556,8 +591,8 @@ def run(rep, tier, seed):
         cases.append((g.chain(), g.stack(2)))
     # small exhaustive block: every leaf predicate kind x every single-location stack over a small type pool
     leafs = ([("PStr", s) for s in PRED_STRS] + [("PRe", s) for s in REGEXES]
-             + [("PCls", c) for c in range(13)] + [("PTy", ("ty", 9, [("ty", a, [])])) for a in (11, 12, ANY, 0)])
-    small_types = [("ty", c, []) for c in range(9)] + [("ty", 9, [("ty", a, [])]) for a in (11, ANY)] + \
+             + [("PCls", c) for c in list(range(13)) + [14, 15, 16, 17]] + [("PTy", ("ty", 9, [("ty", a, [])])) for a in (11, 12, ANY, 0)])
+    small_types = [("ty", c, []) for c in list(range(9)) + [14, 15, 16, 17]] + [("ty", 9, [("ty", a, [])]) for a in (11, ANY)] + \
                   [("ty", 7, [("ty", ANY, [])]), ("ty", 10, [("ty", 12, []), ("ty", 11, [])])]
     for p in leafs:
         for t in small_types:
@@ -590,7 +625,7 @@ def run(rep, tier, seed):
     rep.cov["evaluations"] = len(allc) + len(ident_cases)
     rep.cov["distinct_nontrivial"] = len({repr(c) for c in allc if nontrivial(c)})
     rep.cov["rule"] = ("(predicate, location stack) pairs drawn from the model grammar (P expressions of nesting <= 3 over a "
-                       "14-class world with abstract classes, a runtime protocol, user and builtin generics; stacks of 1-4 "
+                       "18-class world with abstract classes, concrete classes that list ABC / use ABCMeta, a runtime protocol, user and builtin generics; stacks of 1-4 "
                        "locations of all six location classes) plus an exhaustive block of every leaf predicate x single "
                        "location, plus loader(pred, marker) through a real Retort; non-trivial = pattern predicate, "
                        "composite checker or stack longer than one; distinct by structural repr")
